@@ -26,7 +26,7 @@ Definition lenZ {A} (l : list A) : Z := Z.of_nat (length l).
 Definition upto (n : Z) : list Z := map Z.of_nat (seq 0 (Z.to_nat n)).
 
 (** [a; a+1; ...; a+n-1] *)
-Definition rangeZ (a n : Z) : list Z := map (fun k => a + k) (upto n).
+Definition rangeZ (a n : Z) : list Z := map (fun k => (a + k)%Z) (upto n).
 
 (** column [i] of a table given as a list of rows (DataFrame.iloc[:, i]) *)
 Definition col (i : Z) (rows : list (list F)) : list F := map (fun r => nth (Z.to_nat i) r f0) rows.
@@ -156,17 +156,17 @@ Definition fill_phase (scaling : bool) (s : pc_st) : pc_st :=
   let i := m_total s in
   let n := (m_since s + 1)%Z in
   if negb (is_none (m_ds s)) then
-    mk_pc (i + 1) 0 DNone true (m_test s) [] (m_npcs s) (m_rproj s) (m_tproj s) (m_lower s) (m_upper s)
+    mk_pc (i + 1)%Z 0 DNone true (m_test s) [] (m_npcs s) (m_rproj s) (m_tproj s) (m_lower s) (m_upper s)
           (m_dref s) (m_dtest s) (do_reset (m_mon s)) (m_scores s) (m_comp s)
           (if scaling then [(C_INV, lenZ (m_test s))] else [])
   else if (lenZ (m_ref s) <? pc_w p)%Z then
-    mk_pc (i + 1) n (m_ds s) true (m_ref s ++ [i]) (m_test s) (m_npcs s) (m_rproj s) (m_tproj s) (m_lower s) (m_upper s)
+    mk_pc (i + 1)%Z n (m_ds s) true (m_ref s ++ [i]) (m_test s) (m_npcs s) (m_rproj s) (m_tproj s) (m_lower s) (m_upper s)
           (m_dref s) (m_dtest s) (m_mon s) (m_scores s) (m_comp s) []
   else if (lenZ (m_test s) <? pc_w p)%Z then
-    mk_pc (i + 1) n (m_ds s) true (m_ref s) (m_test s ++ [i]) (m_npcs s) (m_rproj s) (m_tproj s) (m_lower s) (m_upper s)
+    mk_pc (i + 1)%Z n (m_ds s) true (m_ref s) (m_test s ++ [i]) (m_npcs s) (m_rproj s) (m_tproj s) (m_lower s) (m_upper s)
           (m_dref s) (m_dtest s) (m_mon s) (m_scores s) (m_comp s) []
   else
-    mk_pc (i + 1) n (m_ds s) true (m_ref s) (m_test s) (m_npcs s) (m_rproj s) (m_tproj s) (m_lower s) (m_upper s)
+    mk_pc (i + 1)%Z n (m_ds s) true (m_ref s) (m_test s) (m_npcs s) (m_rproj s) (m_tproj s) (m_lower s) (m_upper s)
           (m_dref s) (m_dtest s) (m_mon s) (m_scores s) (m_comp s) [].
 
 Definition supports_lower (npcs : Z) (rproj tproj : list (list F)) : list F :=
